@@ -46,4 +46,80 @@ theorem merge_wf {s : View ι μ} {a b : Change ι μ} (hid : a.id = b.id)
     simp [mergeChanges, WFChange, apply, set_set] at ha hb ⊢ <;>
     simp_all
 
+/-! ### `extract` -/
+
+theorem extract_some {i : ι} {l : List (Change ι μ)} {a : Change ι μ} {rest : List (Change ι μ)}
+    (h : extract i l = some (a, rest)) :
+    ∃ pre post, l = pre ++ a :: post ∧ rest = pre ++ post ∧ a.id = i ∧ ∀ c ∈ pre, c.id ≠ i := by
+  induction l generalizing a rest with
+  | nil => simp [extract] at h
+  | cons c cs ih =>
+    unfold extract at h
+    by_cases hc : c.id = i
+    · simp [hc] at h
+      obtain ⟨rfl, rfl⟩ := h
+      exact ⟨[], cs, by simp, by simp, hc, by simp⟩
+    · simp only [hc, if_false] at h
+      cases hx : extract i cs with
+      | none => simp [hx] at h
+      | some p =>
+        obtain ⟨a', rest'⟩ := p
+        simp [hx] at h
+        obtain ⟨rfl, rfl⟩ := h
+        obtain ⟨pre, post, h1, h2, h3, h4⟩ := ih hx
+        refine ⟨c :: pre, post, by simp [h1], by simp [h2], h3, ?_⟩
+        intro d hd
+        rcases List.mem_cons.mp hd with rfl | hd
+        · exact hc
+        · exact h4 d hd
+
+theorem extract_none {i : ι} {l : List (Change ι μ)} (h : extract i l = none) : ∀ c ∈ l, c.id ≠ i := by
+  induction l with
+  | nil => simp
+  | cons c cs ih =>
+    unfold extract at h
+    by_cases hc : c.id = i
+    · simp [hc] at h
+    · simp only [hc, if_false] at h
+      cases hx : extract i cs with
+      | none =>
+        intro d hd
+        rcases List.mem_cons.mp hd with rfl | hd
+        · exact hc
+        · exact ih hx d hd
+      | some p => simp [hx] at h
+
+/-- ids of a list of changes -/
+def ids (l : List (Change ι μ)) : List ι := l.map (·.id)
+
+omit [DecidableEq ι] in
+theorem ids_append (xs ys : List (Change ι μ)) : ids (xs ++ ys) = ids xs ++ ids ys := by
+  simp [ids]
+
+/-! ### the window lemma: merging the pending change of an id with a new one -/
+
+theorem merge_window {s1 : View ι μ} {a e : Change ι μ} {post : List (Change ι μ)}
+    (hid : a.id = e.id) (hne : ∀ c ∈ post, c.id ≠ a.id)
+    (hw : WFHist s1 (a :: post)) (he : WFChange (fold (a :: post) s1) e) :
+    match mergeChanges a e with
+    | some m => m.id = e.id ∧ WFHist s1 (post ++ [m]) ∧ fold (post ++ [m]) s1 = apply e (fold (a :: post) s1)
+    | none => WFHist s1 post ∧ fold post s1 = apply e (fold (a :: post) s1) := by
+  have hmove := WFHist_move_end hne hw
+  have hfold := fold_move_end s1 a post hne
+  rw [WFHist_snoc] at hmove
+  obtain ⟨hpost, ha⟩ := hmove
+  have he' : WFChange (apply a (fold post s1)) e := by
+    rw [← fold_snoc, hfold]; exact he
+  have hm := merge_wf hid ha he'
+  cases hmc : mergeChanges a e with
+  | some m =>
+    rw [hmc] at hm
+    obtain ⟨h1, h2, h3⟩ := hm
+    refine ⟨h1, WFHist_snoc.mpr ⟨hpost, h2⟩, ?_⟩
+    rw [fold_snoc, h3, ← hfold, fold_snoc]
+  | none =>
+    rw [hmc] at hm
+    refine ⟨hpost, ?_⟩
+    rw [← hfold, fold_snoc, hm]
+
 end ScVerif.C09
